@@ -44,6 +44,29 @@
 /* All connections that are alive, upgraded or not. */
 static LIST_HEAD(connection_list);
 
+static int refuse_header_data(http_parser *parser, const char *at, size_t length)
+{
+	(void)parser;
+	(void)at;
+	(void)length;
+	return -1;
+}
+
+static int refuse_headers_complete(http_parser *parser)
+{
+	(void)parser;
+	return -1;
+}
+
+static void install_handler_callbacks(struct http_connection *connection, const struct url_handler *handler)
+{
+	connection->parser_settings.on_header_field = handler->on_header_field;
+	connection->parser_settings.on_header_value = handler->on_header_value;
+	connection->parser_settings.on_headers_complete = handler->on_headers_complete;
+	connection->parser_settings.on_body = handler->on_body;
+	connection->parser_settings.on_message_complete = handler->on_message_complete;
+}
+
 static int on_url(http_parser *parser, const char *at, size_t length)
 {
 	struct http_connection *connection = container_of(parser, struct http_connection, parser);
@@ -67,17 +90,22 @@ static int on_url(http_parser *parser, const char *at, size_t length)
 			connection->status_code = HTTP_NOT_FOUND;
 			return -1;
 		}
-		/*
-		 * The handler's create function is called when the complete
-		 * start line is known to be valid, see read_start_line().
-		 */
 		connection->url_handler = handler;
-
-		connection->parser_settings.on_header_field = handler->on_header_field;
-		connection->parser_settings.on_header_value = handler->on_header_value;
-		connection->parser_settings.on_headers_complete = handler->on_headers_complete;
-		connection->parser_settings.on_body = handler->on_body;
-		connection->parser_settings.on_message_complete = handler->on_message_complete;
+		if (handler->create != NULL) {
+			/*
+			 * The handler's create function is called when the
+			 * complete start line is known to be valid, see
+			 * read_start_line(). The object its parser callbacks
+			 * work on does not exist before, so they are installed
+			 * there, too. Header data that follows the request
+			 * line in the same line (the parser accepts a bare LF
+			 * as line end, the reader does not) is refused.
+			 */
+			connection->parser_settings.on_header_field = refuse_header_data;
+			connection->parser_settings.on_headers_complete = refuse_headers_complete;
+		} else {
+			install_handler_callbacks(connection, handler);
+		}
 	} else {
 		connection->status_code = HTTP_BAD_REQUEST;
 		return -1;
@@ -161,6 +189,7 @@ static enum bs_read_callback_return read_start_line(void *context, uint8_t *buf,
 			free_connection(connection);
 			return BS_CLOSED;
 		}
+		install_handler_callbacks(connection, handler);
 	}
 
 	return BS_OK;
